@@ -97,12 +97,12 @@ Definition op_eqv (l r : operand) : outcome := plain (int16_values_eqv_ l r).
 Definition op_imp (l r : operand) : outcome := plain (int16_values_imp_ l r).
 
 (* ---------- FOR counter: interpreter.iterate_loop for an integer loop variable ----------
-   counter_view.iadd(step); loop_ends = counter_view.gt(stop) if sgn > 0 else stop.gt(counter_view)
+   counter_view.iadd(step); loop_ends = counter_view.gt(stop) if sgn >= 0 else stop.gt(counter_view)  (a zero step counts as non-negative)
    result: new counter bytes and whether the loop ends; Overflow leaves the counter unchanged (the raise
    precedes the buffer write). *)
 Definition for_step (counter step stop : buf16) (sgn : Z) : res (buf16 * bool) :=
   bind (int16_iadd counter step) (fun c' =>
-    Ok (c', if sgn >? 0 then int16_gt c' stop else int16_gt stop c')).
+    Ok (c', if sgn >=? 0 then int16_gt c' stop else int16_gt stop c')).
 
 (* ---------- canonical encodings for the correspondence harness ---------- *)
 Definition enc_buf (b : buf16) : list Z := [fst b; snd b].
